@@ -448,3 +448,24 @@ Definition chk_pst (ub : bool) (t : tree) (impl_ok : bool) (impl : list node) : 
         | Ok a, Ok b => sx_eqb (sx_nodes a) (sx_nodes b)
         | Reject _, Reject _ => true
         | _, _ => false end)].
+
+(* ---- C01 / C03 / C04 / C05: classification of the methods of an interface for the L2 runs ---- *)
+(* 0 outside every known class; 2 object-bearing struct value; 3 input object array with a
+   single output object; 4 a class multiplicity above 15; 5 a bundle with interior padding *)
+Definition method_class (f : mfunc) : N :=
+  let ps := mf_params f in
+  if has_objstruct_value ps then 2
+  else if objarr_after_out ps then 3
+  else if over_limit (plan_secs ps) then 4
+  else if has_padded_bundle ps then 5
+  else 0.
+
+Definition chk_l2_classes (files : list ast) (iface : string) : list N :=
+  match front Cli Debug files with
+  | Ok mir =>
+      match find (fun t => match t with MTIface i => String.eqb (mi_name i) iface | _ => false end) mir with
+      | Some (MTIface top) => map method_class (mnode_funcs (mi_nodes top))
+      | _ => []
+      end
+  | _ => []
+  end.
